@@ -175,7 +175,14 @@ class Ctx:
         obj = self.world[obj] if isinstance(obj, str) else self.val(obj)
         args = self.val(node.get("args", []))
         kw = self.val(node.get("kw", {}))
-        msg = Msg(node["cmd"], obj, *args, run=node.get("run"), **kw)
+        if node.get("reuse"):
+            # a plan that keeps one Msg object and yields it again (retry loops, caching_repeater, message lists)
+            cache = self.__dict__.setdefault("_reused_msgs", {})
+            msg = cache.get(site)
+            if msg is None:
+                msg = cache[site] = Msg(node["cmd"], obj, *args, run=node.get("run"), **kw)
+        else:
+            msg = Msg(node["cmd"], obj, *args, run=node.get("run"), **kw)
         mid = self.mid_of(msg)
         self.site_of[mid] = site
         self.log("yield", site=site, mid=mid, cmd=node["cmd"])
